@@ -170,14 +170,22 @@ def qr(prog, ctx):
         st = st0.fork()
         Qin, Rin, Sin = Symbol('arr:Q@in'), Symbol('arr:R@in'), Symbol('arr:S@in')
         st.env[qid], st.env[rid], st.env[sid], st.env[ivar['id']] = Qin, Rin, Sin, i
-        inner = [s for s in body if s['k'] in ('For', 'While')]
-        live = [st]
-        for s_ in body:
-            if s_ in inner:
-                continue
-            live, dn = osx.exec(s_, live)
-            if dn or len(live) != 1:
-                raise Undecided('the sweep body branches or exits')
+        inner = [s for s in body if s['k'] in ('For', 'While') and rid in osx.assigned_in(s)]      # the loop(s) storing into R: the zeroing
+        # all paths of one sweep (a `continue` ends the sweep early); the zeroing loop is looked at separately
+        rest_body = {'k': 'Compound', 'body': [s_ for s_ in body if s_ not in inner]}
+        live, dn = osx.exec_loop_body(rest_body, [st])
+        early = [o_ for o_ in dn if o_.kind == 'continue']
+        if [o_ for o_ in dn if o_.kind not in ('continue',)] or len(live) > 1 or (not live and not early):
+            raise Undecided('the sweep body branches, breaks or exits')
+        for o_ in early:
+            if o_.state.env.get(sid) == Sin or o_.state.env.get(rid) == Rin:
+                ctx.violated(R, 'QR:submatrix', fn, 'under [%s] the sweep is cut short: the working sub-matrix is not reduced by its first row and column (and R/Q are not '
+                             'updated), so every later sweep works on the wrong block while the zeroing loop hides the unreduced entries'
+                             % ' and '.join(str(c_)[:100] for c_ in o_.state.conds[len(st.conds):]),
+                             witness={'reproducer': 'QR of {{2,1,1},{0,3,4},{0,5,6}}: Q*R differs from M by O(1)'})
+                return
+        if early or not live:
+            raise Undecided('the sweep has early-continue paths')
         env = live[0].env
     except Undecided as ex_:
         ctx.undecided(R, 'QR:sweep', fn, 'sweep outside the understood fragment: %s' % ex_)
